@@ -15,6 +15,7 @@ CONSTANTS
   ConcGrid <- G_None
   YieldK <- K_None
   TerminalQueries = TRUE
+  AllowEmpty = TRUE
 
 INVARIANT WorkspaceWellFormed
 INVARIANT SplitPartitions
